@@ -118,6 +118,18 @@ package dns
 
 // a packed message always contains its 12-octet header
 //@ func (*Msg).packBufferWithCompressionMap [C01 C08 C18 C11]
+//@   callsite "SetExtendedRcode" rcodehi: arg1 == dns.Rcode % 65536 && 0 <= dns.Rcode && dns.Rcode <= 4095 [C01]
+//@   assert at "if dns.Response {" hdr0: 0 <= dns.Opcode && dns.Opcode <= 15 ==> dh.Bits == dns.Opcode * 2048 + dns.Rcode % 16 [C01]
+//@   assert at "if dns.Authoritative {" hdr1: 0 <= dns.Opcode && dns.Opcode <= 15 ==> dh.Bits == dns.Opcode * 2048 + dns.Rcode % 16 + (dns.Response ? 32768 : 0) [C01]
+//@   assert at "if dns.Truncated {" hdr2: 0 <= dns.Opcode && dns.Opcode <= 15 ==> dh.Bits == dns.Opcode * 2048 + dns.Rcode % 16 + (dns.Response ? 32768 : 0) + (dns.Authoritative ? 1024 : 0) [C01]
+//@   assert at "if dns.RecursionDesired {" hdr3: 0 <= dns.Opcode && dns.Opcode <= 15 ==> dh.Bits == dns.Opcode * 2048 + dns.Rcode % 16 + (dns.Response ? 32768 : 0) + (dns.Authoritative ? 1024 : 0) + (dns.Truncated ? 512 : 0) [C01]
+//@   assert at "if dns.RecursionAvailable {" hdr4: 0 <= dns.Opcode && dns.Opcode <= 15 ==> dh.Bits == dns.Opcode * 2048 + dns.Rcode % 16 + (dns.Response ? 32768 : 0) + (dns.Authoritative ? 1024 : 0) + (dns.Truncated ? 512 : 0) + (dns.RecursionDesired ? 256 : 0) [C01]
+//@   assert at "if dns.Zero {" hdr5: 0 <= dns.Opcode && dns.Opcode <= 15 ==> dh.Bits == dns.Opcode * 2048 + dns.Rcode % 16 + (dns.Response ? 32768 : 0) + (dns.Authoritative ? 1024 : 0) + (dns.Truncated ? 512 : 0) + (dns.RecursionDesired ? 256 : 0) + (dns.RecursionAvailable ? 128 : 0) [C01]
+//@   assert at "if dns.AuthenticatedData {" hdr6: 0 <= dns.Opcode && dns.Opcode <= 15 ==> dh.Bits == dns.Opcode * 2048 + dns.Rcode % 16 + (dns.Response ? 32768 : 0) + (dns.Authoritative ? 1024 : 0) + (dns.Truncated ? 512 : 0) + (dns.RecursionDesired ? 256 : 0) + (dns.RecursionAvailable ? 128 : 0) + (dns.Zero ? 64 : 0) [C01]
+//@   assert at "if dns.CheckingDisabled {" hdr7: 0 <= dns.Opcode && dns.Opcode <= 15 ==> dh.Bits == dns.Opcode * 2048 + dns.Rcode % 16 + (dns.Response ? 32768 : 0) + (dns.Authoritative ? 1024 : 0) + (dns.Truncated ? 512 : 0) + (dns.RecursionDesired ? 256 : 0) + (dns.RecursionAvailable ? 128 : 0) + (dns.Zero ? 64 : 0) + (dns.AuthenticatedData ? 32 : 0) [C01]
+//@   assert at "dh.Qdcount = uint16(len(dns.Question))" hdr8: 0 <= dns.Opcode && dns.Opcode <= 15 ==> dh.Bits == dns.Opcode * 2048 + dns.Rcode % 16 + (dns.Response ? 32768 : 0) + (dns.Authoritative ? 1024 : 0) + (dns.Truncated ? 512 : 0) + (dns.RecursionDesired ? 256 : 0) + (dns.RecursionAvailable ? 128 : 0) + (dns.Zero ? 64 : 0) + (dns.AuthenticatedData ? 32 : 0) + (dns.CheckingDisabled ? 16 : 0) [C01]
+//@   assert at "if dns.Response {" rcodelo: dh.Bits % 16 == dns.Rcode % 16 [C01]
+//@   assert at "dh.Qdcount = uint16(len(dns.Question))" hdrid: dh.Id == dns.Id [C01]
 //@   ensures hdr12: ret1 == nil ==> len(ret0) >= 12
 //@   ensures within: ret1 == nil && ref(ret0) == ref(buf) ==> len(ret0) <= len(buf)
 //@   loop * invariant 12 <= off && off <= len(msg)
